@@ -158,6 +158,12 @@ func (s *Server) handleConn(c *Conn) error {
 	c.greet()
 
 	for {
+		// Commands that were already buffered when the connection was
+		// closed (QUIT, too many errors, Server.Close) must not be executed.
+		if c.isClosed() {
+			return nil
+		}
+
 		line, err := c.readLine()
 		if err == nil {
 			cmd, arg, err := parseCmd(line)
